@@ -30,7 +30,8 @@ Definition p_rev1 (d : fdiff) : list (N * N * N) :=
     (if fd_created d then [(fd_id d, 0, fd_cur d)]
      else match fd_rev d with Some r => [(fd_id d, fd_cur d, r)] | None => [] end)
   else [].
-Definition resolved1 (d : fdiff) : bool := fd_relevant d && negb (fd_created d) && fd_resolved d.
+(* a created diff never carries a Revision (core folds it); should it, [case created] ignores it *)
+Definition resolved1 (d : fdiff) : bool := fd_relevant d && fd_resolved d.
 Definition p_succ1 (d : fdiff) : list N :=
   if resolved1 d && (fd_valid d || fd_missed_ge d) then [fd_id d] else [].
 Definition p_fail1 (d : fdiff) : list N :=
@@ -151,8 +152,8 @@ Qed.
 (* the changes of one merged diff, in the order ApplyContracts / RevertContracts meet them *)
 Definition dev1 (d : fdiff) : list pev1 :=
   if negb (fd_relevant d) then []
-  else if fd_created d then [PForm1; PRev1 0 (fd_cur d)]
-  else (match fd_rev d with Some r => [PRev1 (fd_cur d) r] | None => [] end)
+  else (if fd_created d then [PForm1; PRev1 0 (fd_cur d)]
+        else match fd_rev d with Some r => [PRev1 (fd_cur d) r] | None => [] end)
        ++ (if fd_resolved d then [if fd_valid d || fd_missed_ge d then PSucc1 else PFail1] else []).
 Definition dev2 (d : fdiff2) : list pev2 :=
   if negb (gd_relevant d) then []
@@ -369,6 +370,8 @@ Qed.
    one diff per contract id the block mentions, into which all its changes are merged. *)
 Definition diff1_of_evl (id : N) (l : list pev1) : fdiff :=
   match l with
+  | [PForm1; PRev1 _ k; PSucc1] => mkFD id true true k None true true false
+  | [PForm1; PRev1 _ k; PFail1] => mkFD id true true k None true false false
   | PForm1 :: PRev1 _ k :: _ => mkFD id true true k None false false false
   | PForm1 :: _ => mkFD id true true 0 None false false false
   | [PRev1 o n] => mkFD id true false o (Some n) false false false
@@ -392,13 +395,13 @@ Definition diffs2_of (b : block) : list fdiff2 :=
   map (fun id => diff2_of_evl id (evl2_of id b)) (nodup N.eq_dec (ids2_of b)).
 
 Lemma diff1_of_evl_id id l : fd_id (diff1_of_evl id l) = id.
-Proof. destruct l as [|[|o n| |] [|[|o2 n2| |] t]]; reflexivity. Qed.
+Proof. destruct l as [|[|o n| |] [|[|o2 n2| |] [|[|o3 n3| |] [|e4 t4]]]]; reflexivity. Qed.
 Lemma diff2_of_evl_id id l : gd_id (diff2_of_evl id l) = id.
 Proof. destruct l as [|[r|o n| | |] [|e2 [|e3 t]]]; reflexivity. Qed.
 
 Lemma dev1_diff1_of_evl id l : shape1 l -> l <> [PForm1] -> dev1 (diff1_of_evl id l) = l.
 Proof.
-  destruct l as [|[|o n| |] [|[|o2 n2| |] [|e3 t3]]]; cbn; try tauto; try congruence.
+  destruct l as [|[|o n| |] [|[|o2 n2| |] [|[|o3 n3| |] [|e4 t4]]]]; cbn; try tauto; try congruence.
   all: destruct o2; try tauto; reflexivity.
 Qed.
 Lemma dev2_diff2_of_evl id l : shape2 l -> dev2 (diff2_of_evl id l) = l.
@@ -435,7 +438,7 @@ Proof.
   - apply forallb_forall. intros d Hd. unfold diffs1_of in Hd. apply in_map_iff in Hd.
     destruct Hd as (id & <- & _). destruct (Hok id) as [Sh _]. specialize (Hbare id).
     revert Sh Hbare. generalize (evl1_of id b). intros l.
-    destruct l as [|[|o n| |] [|[|o2 n2| |] [|e3 t3]]]; cbn; try tauto; try congruence; try reflexivity.
+    destruct l as [|[|o n| |] [|[|o2 n2| |] [|[|o3 n3| |] [|e4 t4]]]]; cbn; try tauto; try congruence; try reflexivity.
     all: destruct o2; try tauto; reflexivity.
   - intros id. destruct (in_dec N.eq_dec id (ids1_of b)) as [Hi|Hn].
     + assert (Hd : In (diff1_of_evl id (evl1_of id b)) (diffs1_of b)).
